@@ -68,6 +68,13 @@ fn check(t: &mut Tape, ctx: &mut Ctx) -> CheckResult {
     let lgot = lgot.strictify().map_err(|e| ctx.fail("map-arrow-wf", format!("lax F(f) has label conflicts: {e}")))?;
     require_iso(ctx, "lax-map-arrow-is-substitution", &lgot, &want, "F(f) (lax trait via dyn_functor) vs substitution")?;
 
+    // the library's own optic is a functor too: its image is the optic definition on the model
+    {
+        let keys = gen::op_keys(&[f]);
+        let o = super::c14::optic_table(t, al, &keys, false, ctx);
+        let img = wf(ctx, "map-arrow-wf", sv::op_optic(&o, f), "Optic(f) as a functor")?;
+        require_iso(ctx, "optic-functor-is-definition", &img, &crate::functor_model::optic_image(f, &o).0, "Optic::map_arrow(f) (Functor impl) vs the optic definition")?;
+    }
     // the lax functor wrapped as a strict functor (`to_dyn_functor`) and applied to the strict diagram
     {
         let dynf = open_hypergraphs::lax::functor::dyn_functor::to_dyn_functor(lf.clone());
